@@ -46,3 +46,27 @@ pub fn c17_entry_points() {
     let mut r = INITIAL_BOOOK_MOVES.into_iter();
     assert!(r.next().is_some());
 }
+
+/// `nth(k)` (and with it `skip` / `step_by`) behaves as k+1 calls of `next`, from any node, for
+/// k <= 1 - thorough tier (two more symbolic reads of the 87204-word table)
+#[kani::proof]
+#[kani::unwind(4)]
+pub fn c17_nth_equals_repeated_next_t() {
+    let i: usize = kani::any();
+    kani::assume(i < hook::BOOK_SIZE);
+    let k: usize = kani::any();
+    kani::assume(k <= 1);
+    let mut a = BookMoves::verif_from_index(i).into_iter();
+    let mut b = BookMoves::verif_from_index(i).into_iter();
+    let ra = a.nth(k);
+    let mut rb = b.next();
+    if k == 1 && rb.is_some() {
+        rb = b.next();
+    }
+    match (ra, rb) {
+        (Some(x), Some(y)) => assert!(x.source == y.source && x.dest == y.dest && x.children.verif_index() == y.children.verif_index()),
+        (None, None) => {}
+        _ => assert!(false, "nth disagrees with repeated next"),
+    }
+    assert!(a.verif_index() == b.verif_index());
+}
